@@ -82,6 +82,10 @@ void runFaults(const Opts& o, long idx, CaseLog& log) {
             if (got != ref) { ++bad; log.viol("C15", "returned_normally_on_incomplete_write/size_limit@" + sec, "kind " + std::to_string(kind) + ": only " + std::to_string(N) + " of " + std::to_string(full) + " bytes could be written (file on disk has " + std::to_string((unsigned long long)got.size()) + "), write() returned normally"); }
         }
     }
+    // after the faulted saves of this slice: a save without fault must reach the disk completely (nothing left over from the failed ones)
+    { unlink(tp); Outcome fo; VF_TRY(fo, c.write(tp)); ++bySection["after_faults:no_fault"];
+      if (fo.threw) { ++bad; log.viol("C15", "false_refusal/after_faulted_saves", "a save without fault, after " + std::to_string(b - a) + " faulted ones in the same process, threw " + fo.cls + ": " + fo.what); }
+      else if (readFileBytes(tp) != ref) { ++bad; log.viol("C15", "returned_normally_on_incomplete_write/after_faulted_saves", "a save without fault, after faulted saves in the same process, returned normally but the file is not the complete save"); } }
     unlink(tp);
     log.line("RES %ld kind=%d size=%ld offsets=%ld exhaustive=%d threw=%ld returned=%ld bad=%ld", idx, kind, full, b - a, full <= exhaustiveBelow ? 1 : 0, threw, returned, bad);
     for (std::map<std::string, long>::iterator it = bySection.begin(); it != bySection.end(); ++it) log.line("CNT fault:%s %ld", it->first.c_str(), it->second);
@@ -109,6 +113,13 @@ void runFaults(const Opts& o, long idx, CaseLog& log) {
         else if (!ts[i].mustFail && oc.threw) log.viol("C15", std::string("false_refusal/") + ts[i].name, oc.cls + ": " + oc.what);
         else if (!ts[i].mustFail && readFileBytes(ts[i].path) != ref) log.viol("C15", std::string("returned_but_file_differs/") + ts[i].name, "file content differs from the reference save");
     }
+    // a save REFUSED half-way (an object beyond the format: more than 255 blocks of parameters; the refusal itself is C17's business) must
+    // not disturb the next save, of a good object to another path, in the same process
+    { ezc3d::c3d big; for (int k = 0; k < 4; ++k) { Param p("BIG" + std::to_string(k)); std::vector<size_t> dm; dm.push_back(250); dm.push_back(60); p.set(std::vector<float>(15000, 1.5f), dm); big.parameter("BULK", p); }
+      Outcome bo; VF_TRY(bo, big.write(dir + "/refused.c3d")); log.line("CNT dest:object_beyond_format:%s 1", bo.threw ? "threw" : "returned");
+      std::string ap = dir + "/after_refused.c3d"; Outcome go; VF_TRY(go, c.write(ap)); log.line("CNT dest:save_after_refused_save:%s 1", go.threw ? "threw" : "returned");
+      if (go.threw) log.viol("C15", "false_refusal/after_refused_save", go.cls + ": " + go.what);
+      else if (readFileBytes(ap) != ref) log.viol("C15", "returned_normally_on_incomplete_write/after_refused_save", "after a refused save of another object, write(\"" + ap + "\") returned normally but that file " + (access(ap.c_str(), F_OK) == 0 ? "differs from the complete save" : "does not exist")); }
     // read-only file and read-only directory: root ignores mode bits, so a child drops to nobody
     std::string rof = dir + "/readonly.c3d", rod = dir + "/rodir"; writeFileBytes(rof, "old"); chmod(rof.c_str(), 0444); mkdir(rod.c_str(), 0555); chmod(dir.c_str(), 0755);
     chmod(o.out.c_str(), 0755);
